@@ -235,3 +235,25 @@ Example C05_unfilled_satisfiable :
   c05_positional f_static_text (poscall [] [VInt 1%Z] []) = true /\ some_required_unfilled f_static_text (poscall [] [VInt 1%Z] []) = true
   /\ run1 ctx0 f_static_text (poscall [] [VInt 1%Z] []) (returns (VInt 1%Z)) = (Raise PTypeCheckC, []).
 Proof. repeat split; reflexivity. Qed.
+
+(* ---------------- one positional value where every parameter has a default ---------------- *)
+(* One declared parameter written positionally where EVERY parameter has a default (nothing would be left unfilled if the value
+   were dropped), whatever the parameters are called, whatever the value and the defaults are, under @pedantic and under
+   @require_kwargs: rejected, the body does not run.  The text flags of `plain_text` are those of a function whose only '@' in
+   front of the def line is its decorator; '@' characters and decorator-looking lines AFTER the def line (nested decorated
+   functions, docstrings with '@tag' lines, the matrix multiplication operator) are not among the things the implementation
+   reads (Model.Pedantic.text_flags; locked by translator/t_pedantic.py): the generated modules of bin/check C05 carry them
+   and are judged against Spec.PedanticSpec.c05_positional directly. *)
+Theorem C05_one_positional_all_defaulted_rejected_closed : forall ctx n m v d d' bd,
+  n <> self_name -> n <> m ->
+  let f := func "f" [par n PosOrKw AInt (Some d); par m PosOrKw AInt (Some d')] plain_text in
+  run1 ctx f (poscall [] [v] []) bd = (Raise PCallWithArgsC, [])
+  /\ run_rk1 ctx f (poscall [] [v] []) bd = (Raise PCallWithArgsC, []).
+Proof.
+  intros ctx n m v d d' bd Hs Hn f. subst f. destruct n as [|k]; [exfalso; apply Hs; reflexivity|].
+  assert (Hc : c05_positional (func "f" [par (S k) PosOrKw AInt (Some d); par m PosOrKw AInt (Some d')] plain_text) (poscall [] [v] []) = true).
+  { unfold c05_positional, twin_binding, py_bind. cbn. reflexivity. }
+  split; [unfold run1; apply C05_positional_rejected_partial|unfold run_rk1; apply C05_require_kwargs_rejected_partial];
+    try exact C05_cfg_good; try exact Hc; try reflexivity; left; reflexivity.
+Qed.
+Print Assumptions C05_one_positional_all_defaulted_rejected_closed.
